@@ -175,7 +175,7 @@ def tlc(ctx, module, cfg=None, env=None, workers=None, timeout=600, simulate=Non
     cmd = ["timeout", str(int(timeout)), "java", "-XX:+UseParallelGC"]
     if heap:
         cmd.append("-Xmx%s" % heap)
-    cmd += ["-Xss64m"]
+    cmd += ["-Xss64m", "-Djava.io.tmpdir=" + d]      # TLC leaves an empty tlc-<n> directory in java.io.tmpdir per run: keep it in the scratch
     if dfs:
         cmd.append("-Dtlc2.tool.queue.IStateQueue=StateDeque")
     cmd += ["-cp", "/opt/veriftools/tla/tla2tools.jar:/opt/veriftools/tla/CommunityModules-deps.jar", "tlc2.TLC",
